@@ -66,6 +66,38 @@ def fitsItems (ρ : Env) : Items → Bool
   | .cons _ _ _ body rest => fitsSs ρ body && fitsItems ρ rest
 end
 
+/-! ### Static versions (for every valuation with in-range signal values) -/
+
+def sfitsAssign (l r : Expr) : Bool :=
+  targetOk l && staticallyFits r (max (selfWidth (printE l).1) (selfWidth (printE r).1))
+
+def sfitsCond (c : Expr) : Bool :=
+  let pc := (printE c).1
+  staticallyFits c (selfWidth pc) &&
+    (decide (selfWidth pc = (bitsSign c).1) ||
+     inRangeB (min (selfWidth pc) (bitsSign c).1) false (bounds pc))
+
+def sfitsCase (test : Expr) (items : Items) : Bool :=
+  let pt := (printE test).1
+  let W := max (selfWidth pt) (itemsWidth (printItems items))
+  let sg := selfSigned pt && itemsSigned (printItems items)
+  sfitsP test && sfitsV pt W sg && decide (0 < W) && itemsOk items &&
+    inRangeB (bitsSign test).1 (bitsSign test).2 (bounds pt) &&
+    ((inRangeB W false (bounds pt) && itemsIn W false items) || (inRangeB W true (bounds pt) && itemsIn W true items))
+
+mutual
+def sfitsS : Stmt → Bool
+  | .assign l r => sfitsAssign l r
+  | .ite c t f => sfitsCond c && sfitsSs t && sfitsSs f
+  | .case test items _ d => sfitsCase test items && sfitsItems items && sfitsSs d
+def sfitsSs : Stmts → Bool
+  | .nil => true
+  | .cons s ss => sfitsS s && sfitsSs ss
+def sfitsItems : Items → Bool
+  | .nil => true
+  | .cons _ _ _ body rest => sfitsSs body && sfitsItems rest
+end
+
 def fitsModule (f : FModule) (a : Array Int) : Bool :=
   f.comb.all (fun g => fitsSs (envA a) g.stmts) && f.sync.all (fun d => fitsSs (envA a) d.stmts)
 
